@@ -37,6 +37,8 @@ MODE_ENV = {
     "B": {"NUMBA_BOUNDSCHECK": "1", "NUMBA_DISABLE_JIT": "0"},
     # what users run
     "N": {"NUMBA_DISABLE_JIT": "0"},
+    # compiled, with the env-guarded verification hook lowering the accumulator threshold to 3
+    "H": {"NUMBA_DISABLE_JIT": "0", "VECTORIZERS_VERIF": "1", "VECTORIZERS_VERIF_COO_LIMIT": "3"},
 }
 
 
